@@ -465,6 +465,63 @@ def _nilfill_rule(chk, prog):
     chk.floor(rule, 4)
 
 
+def _drain_rule(chk, prog):
+    rule = "C01-DRAIN"
+    chk.rule(rule, "janet_collect drains values deferred by the marker's depth guard: pop before mark, until none are left")
+    fn = prog.need_func("janet_collect", "gc.c")
+    chk.analysed(fn)
+    loops = [n for n in fn.nodes if n.k in ("while", "for", "do") and any(c.k == "call" and c.callee == "janet_mark" for c in n.walk())]
+    # the drain loop is the one that is not the plain scan of the first orig_rootcount roots
+    drain = None
+    for lp in loops:
+        cond = lp.kids[0] if lp.k == "while" else (lp.kids[1] if lp.k == "for" else lp.kids[1])
+        body = lp.kids[1] if lp.k == "while" else (lp.kids[3] if lp.k == "for" else lp.kids[0])
+        touches_count = any(x.k == "mem" and x.field == "root_count" and x.rec == "JanetVM" for x in lp.walk())
+        if touches_count:
+            drain = (lp, cond, body)
+    chk.instance(rule)
+    if drain is None:
+        chk.violation(rule, "gc.c", "janet_collect", "drain-loop", fn.loc,
+                      "janet_collect has no loop that empties the roots deferred by the recursion guard of janet_mark: deeply "
+                      "nested live data is not marked")
+        return
+    lp, cond, body = drain
+    if cond is not None and any(x.k == "mem" and x.field == "root_count" and x.rec == "JanetVM" for x in cond.walk()):
+        chk.ok(rule, "drain loop re-reads janet_vm.root_count in its condition")
+    else:
+        chk.violation(rule, "gc.c", "janet_collect", "drain-condition", lp.loc,
+                      "the drain loop does not re-test janet_vm.root_count: values deferred while draining are dropped unmarked")
+    # pop before mark
+    chk.instance(rule)
+    dec = [x for x in body.walk() if (x.k == "un" and x.op in ("pre--", "post--") and is_mem(x.kids[0], "root_count", "JanetVM"))
+           or (x.k == "asg" and x.op in ("-=", "=") and is_mem(x.kids[0], "root_count", "JanetVM"))]
+    marks = [x for x in body.walk() if x.k == "call" and x.callee == "janet_mark"]
+    if not dec or not marks:
+        chk.violation(rule, "gc.c", "janet_collect", "pop-before-mark", lp.loc, "the drain loop does not pop an entry and mark it")
+        return
+    # CFG order: decrement element precedes the mark call on every path inside the body
+    def transfer(st, n):
+        if n in dec:
+            return frozenset(["popped"])
+        return st
+    IN, OUT = flow.forward(fn, frozenset(), transfer, lambda a, b: a & b)
+    ok = True
+    ids = set(x.id for x in body.walk())
+    for b, st in IN.items():
+        for n in fn.blocks[b].elems:
+            if n in marks and n.id in ids and "popped" not in st:
+                ok = False
+            st = transfer(st, n)
+            if n is cond:
+                st = frozenset()      # a new iteration starts
+    if ok:
+        chk.ok(rule, "each deferred value is removed from the root list before it is marked")
+    else:
+        chk.violation(rule, "gc.c", "janet_collect", "pop-before-mark", marks[0].loc,
+                      "a deferred value is marked while it is still the last entry of the root list: a value deferred during that "
+                      "marking is pushed behind it and then discarded by the decrement")
+
+
 _run_prev = run
 
 
@@ -477,3 +534,4 @@ def run(chk):   # noqa
     _mark_rule(chk, prog)
     _safepoint_rule(chk, prog, S)
     _nilfill_rule(chk, prog)
+    _drain_rule(chk, prog)
